@@ -192,6 +192,12 @@ def fact(n):
     if n <= 1:
         return 1
     return n * fact(n - 1)
+
+
+def down(n):
+    if n == 0:
+        raise ValueError('bottom')
+    return down(n - 1)
 '''
 
 
@@ -230,6 +236,27 @@ def recursion_capture_leg(c, wd):
             p_ = c.save_replay({'kind': 'recursion-capture', 'case': label, 'what': bad})
             c.violation('method capture on a recursive function (%s): %s' % (label, bad), p_,
                         signature={'capture': 'nested-same-name'} if count == '1' else None)
+    # (c) an exception that propagates through the recursion: every level's deferred snapshot carries the exception
+    plugin = R.role_plugin('rec', {'span'})
+    rg = R.Rig(plugins=[plugin])
+    try:
+        rg.install([dict(id='t-cap', path=base, line=0, args={'fire_count': '-1', 'fire_period': '0',
+                                                               'stage': 'method_capture', 'method_name': 'down'})])
+        res = rg.run(mod.down, 3, only_file=path)
+        kinds = sorted(w.expression for s_ in rg.snapshots() for w in s_.watches if w.source == 'CAPTURE')
+        bad = None
+        if res[0] != 'exc' or rg.escaped:
+            bad = 'host changed / handler raised: %r %r' % (res, rg.escaped)
+        elif kinds != ['exception'] * 4:
+            bad = 'the four invocations all raised ValueError, their deferred snapshots captured %s' % kinds
+    finally:
+        rg.close()
+    c.traces_validated += 1
+    c.note_case(key=('recursion-capture', 'propagating exception'), nontrivial=True)
+    if bad:
+        p_ = c.save_replay({'kind': 'recursion-capture', 'case': 'propagating exception', 'what': bad})
+        c.violation('method capture on a recursive function (an exception propagates through every level): %s' % bad, p_,
+                    None)
     sys.modules.pop(mod.__name__, None)
 
 
